@@ -13,7 +13,7 @@ ASSUMPTIONS = [
     'induction over histories: one conversion step from an arbitrary valid, consistent state (labels any of the '
     'representations the constructor accepts, data = symbolic base quantity expressed in that representation); the base case '
     'is the constructor itself',
-    'k = 2 symbolic rows + branch column + one numeric and one text extra column + non-default index',
+    'k = 3 symbolic rows (two adsorption, one desorption) + branch column + one numeric and one text extra column + non-default index',
     'FakeState adsorbate, symbolic material density / molar mass; real arithmetic',
     'labels a mutator does not handle are held at two representative values; the frame claims show they are not touched',
     'a call that names an impossible target may raise (state must be unchanged) or return (state must be valid and consistent)',
@@ -34,7 +34,7 @@ def tabs():
 class Env:
     """symbolic world shared by all calls of one path: temperature, adsorbate, material, base data"""
 
-    def __init__(self, h, k=2):
+    def __init__(self, h, k=3):
         self.h = h
         self.TK = h.real('T', pos=True)
         self.ads = stubs.fake_adsorbate(h, 'fakegas', 'f')
@@ -46,8 +46,8 @@ class Env:
         self.th = O.Thermo(self.ads._state.molar_mass() * 1000, h.fun('rhomolar_f', 0.0, self.TK) / 10 ** 6,
                            h.fun('rhomolar_f', 1.0, self.TK) / 10 ** 6)
         self.psat = h.fun('psat_f', self.TK)
-        self.dp = [h.real(f'dp{i}', pos=True) for i in range(k)]
-        self.dn = [h.real(f'dn{i}', pos=True) for i in range(k)]
+        self.dp = isofix.increasing(h, [f'dp{i}' for i in range(k)])
+        self.dn = isofix.increasing(h, [f'dn{i}' for i in range(k)])
         self.extra_num = [h.real(f'ex{i}') for i in range(k)]
         self.k = k
 
@@ -55,9 +55,9 @@ class Env:
         """fresh isotherm in label state S holding the symbolic data"""
         h = self.h
         T = self.TK if S['temperature_unit'] == 'K' else self.TK - 273.15
-        extra = {'enthalpy': isofix.column(h, self.extra_num), 'note': ['a', 'b'][:self.k]}
-        iso = isofix.point_iso(h, self.dp, self.dn, units=S, ads=self.ads, mat=self.mat, T=T, branch=[0, 1][:self.k],
-                               extra=extra, index=[7, 3][:self.k], properties={'user_key': 'user value', 'n': 3})
+        extra = {'enthalpy': isofix.column(h, self.extra_num), 'note': ['a', 'b', 'c'][:self.k]}
+        iso = isofix.point_iso(h, self.dp, self.dn, units=S, ads=self.ads, mat=self.mat, T=T, branch=[0, 0, 1][:self.k],
+                               extra=extra, index=[7, 3, 5][:self.k], properties={'user_key': 'user value', 'n': 3})
         return iso
 
     # ghost canonical quantities of a state + data
@@ -212,14 +212,25 @@ def check_step(h, env, S, call, expected, cid, regions=None):
     iso = env.make(S)
     pre = snapshot(iso)
     bp, bn = env.base_of(S, pre['p'], pre['n'])
-    try:
-        call(iso)
-        raised = None
-    except Exception as e:      # noqa: BLE001 - the class is recorded, only the state matters here
-        raised = e
-    post = snapshot(iso)
+    with isofix.interp_patch(h):
+        iso.loading_at(pre['p'][0])         # fill the interpolator cache in the old representation
+        iso.pressure_at(pre['n'][0])
+        try:
+            call(iso)
+            raised = None
+        except Exception as e:      # noqa: BLE001 - the class is recorded, only the state matters here
+            raised = e
+        post = snapshot(iso)
+        try:
+            l_after = iso.loading_at(post['p'][0])
+            l_after = l_after.item() if isinstance(l_after, numpy.ndarray) else l_after
+        except Exception as e:      # noqa: BLE001
+            l_after = e
     regions = regions or {}
     h.claim(f'{cid}/frame', frame_same(h, pre, post), regions)
+    # caches are invisible: interpolation at a measured point returns the stored loading in the *current* representation
+    h.claim(f'{cid}/interpolation-after-call-uses-current-data',
+            (not isinstance(l_after, Exception)) and h.close(l_after, post['n'][0], 1e-9), regions, info=repr(l_after)[:120])
     if raised is not None:
         h.claim(f'{cid}/refused=>state-unchanged', post['labels'] == pre['labels'] and data_same(h, pre, post)
                 and h.eq(post['T'], pre['T']), regions, info=f'raised {type(raised).__name__}')
@@ -232,8 +243,6 @@ def check_step(h, env, S, call, expected, cid, regions=None):
     # kelvin temperature never changes
     TK_after = iso.temperature if post['labels']['temperature_unit'] in ('K', '°C') else None
     h.claim(f'{cid}/kelvin-temperature-unchanged', TK_after is not None and h.close(TK_after, env.TK, 1e-12), regions)
-    if post['labels'] != pre['labels'] or True:
-        h.claim(f'{cid}/caches-reset-or-untouched', iso.l_interpolator is None and iso.p_interpolator is None, regions)
 
 
 # representative states for quantities a mutator does not handle
@@ -442,7 +451,6 @@ def h_base_case(h, si):
     for a, b in zip(snap['p'] + snap['n'], env.dp + env.dn):
         r = r & h.eq(a, b)
     h.claim(f'C02/base/{si}/data-stored-unchanged', r)
-    h.claim(f'C02/base/{si}/caches-empty', iso.l_interpolator is None and iso.p_interpolator is None)
 
 
 def obligations(tier):
@@ -451,24 +459,24 @@ def obligations(tier):
     for rep in c01.pressure_reps():
         for oi in (0, 1):
             obs.append(Obligation(f'C02/convert_pressure/{rep[0]}:{rep[1]}/other{oi}', h_convert_pressure, (rep, oi),
-                                  bounds='k=2; all (mode_to, unit_to) in tables + {None, "", unknown, wrong family}', **kw))
+                                  bounds='k=3; all (mode_to, unit_to) in tables + {None, "", unknown, wrong family}', **kw))
     mreps_frac = c01.material_reps() if tier == 'thorough' else [('mass', 'g'), ('mass', 'kg'), ('volume', 'cm3'), ('molar', 'mol')]
     for rep in c01.loading_reps():
         ms = mreps_frac if (rep[0] in FR or tier == 'thorough') else [('mass', 'g'), ('volume', 'cm3')]
         for mrep in ms:
             obs.append(Obligation(f'C02/convert_loading/{rep[0]}:{rep[1]}@{mrep[0]}:{mrep[1]}', h_convert_loading, (rep, mrep),
-                                  bounds='k=2; all basis_to x units of the target basis + bad labels', **kw))
+                                  bounds='k=3; all basis_to x units of the target basis + bad labels', **kw))
     lreps = [('molar', 'mmol'), ('fraction', None), ('percent', None)] + ([('mass', 'g'), ('volume_gas', 'cm3')] if tier == 'thorough' else [])
     for mrep in c01.material_reps():
         for lrep in lreps:
             obs.append(Obligation(f'C02/convert_material/{mrep[0]}:{mrep[1]}|{lrep[0]}', h_convert_material, (mrep, lrep),
-                                  bounds='k=2; all basis_to x units + bad labels', **kw))
+                                  bounds='k=3; all basis_to x units + bad labels', **kw))
     for tu in ('K', '°C'):
         for oi in (0, 1):
-            obs.append(Obligation(f'C02/convert_temperature/{tu}/other{oi}', h_convert_temperature, (tu, oi), bounds='k=2', **kw))
+            obs.append(Obligation(f'C02/convert_temperature/{tu}/other{oi}', h_convert_temperature, (tu, oi), bounds='k=3', **kw))
     for si in range(3):
         for ci in range(len(COMBINED)):
-            obs.append(Obligation(f'C02/convert/state{si}/{ci}', h_convert_combined, (si, ci), bounds='k=2; 3 start states x 11 argument sets', **kw))
+            obs.append(Obligation(f'C02/convert/state{si}/{ci}', h_convert_combined, (si, ci), bounds='k=3; 3 start states x 11 argument sets', **kw))
     for i in range(4):
         obs.append(Obligation(f'C02/history/{i}', h_history, (i,), bounds='explicit histories of 2-5 steps', **kw))
     for i in range(5):
